@@ -226,6 +226,10 @@ static Outcome exec_case(const Property *prop, const std::vector<uint32_t> *tape
       out.r.sig = "exit:" + std::to_string(WEXITSTATUS(st));
       out.r.msg = "child exited abnormally with status " + std::to_string(WEXITSTATUS(st)) + "\n" + err.substr(0, 1500);
     }
+    if (out.r.verdict == FAIL && prop->crash_context) {
+      Case cc;
+      if (Case::parse(out.casetext, cc)) out.r.sig += ";" + prop->crash_context(cc);
+    }
   } else if (out.r.verdict == FAIL && out.r.sig == "leak:pending") {
     std::string err = read_file(g_errfile), summary;
     std::string sig = sanitizer_sig(err, &summary);
@@ -470,6 +474,18 @@ int main(int argc, char **argv) {
       if (is_known(prop->id, o.r.sig)) {
         if (g_counting) { g_stats.known_hits++; g_stats.known[o.r.sig]++; }
         return;   // a listed finding: keep searching behind it
+      }
+      if (prop->keep_going) {
+        static std::set<std::string> seen;
+        if (seen.insert(o.r.sig).second && seen.size() <= 200) {
+          Failure f;
+          f.tape = tape; f.o = o; f.have = true;
+          std::string path = write_replay(prop, f, replays);
+          printf("FAILURE property=%s variant=%s sig=%s replay=%s\n", prop->id, prop->variant, o.r.sig.c_str(), path.c_str());
+          failures.push_back("{\"sig\":\"" + jsesc(o.r.sig) + "\",\"replay\":\"" + jsesc(path) + "\",\"msg\":\"" +
+                             jsesc(o.r.msg.substr(0, 2000)) + "\"}");
+        }
+        return;
       }
       if (g_counting) { g_counting = false; g_shrink_deadline = now_s() + 90; }
       g_lastfail.tape = tape;
